@@ -157,18 +157,23 @@ let run_case op t =
        | "set_difference" -> (okl (set_difference_m c l s), dom d (okl (set_difference_s c l s)))
        | _ -> (okl (set_symmetric_difference_m c l s), dom d (okl (set_symmetric_difference_s c l s))))
   | "accumulate" | "reduce" ->
-      let o = op2 (next_int t) in let init = next_int t in let l = next_intlist t in
+      let oid = next_int t in
+      let o = op2 oid in let init = next_int t in let l = next_intlist t in
       if op = "accumulate" then (oki (accumulate_m o l init), oki (accumulate_s o l init))
-      else (oki (reduce_m o l init), oki (accumulate_s o l init))
+      else (* reduce: the order is unspecified unless op is associative and commutative *)
+        (oki (reduce_m o l init), dom (oid = 0 || oid = 3) (oki (accumulate_s o l init)))
   | "transform_reduce1" ->
-      let o = op2 (next_int t) in let tr = op2 (next_int t) in let init = next_int t in
+      let oid = next_int t in
+      let o = op2 oid in let tr = op2 (next_int t) in let init = next_int t in
       let l = next_intlist t in
       let u x = tr x 3 in
-      (oki (transform_reduce1_m o u l init), oki (transform_reduce1_s o u l init))
+      (oki (transform_reduce1_m o u l init), dom (oid = 0 || oid = 3) (oki (transform_reduce1_s o u l init)))
   | "inner_product" | "transform_reduce" ->
-      let o1 = op2 (next_int t) in let o2 = op2 (next_int t) in let init = next_int t in
+      let oid = next_int t in
+      let o1 = op2 oid in let o2 = op2 (next_int t) in let init = next_int t in
       let l = next_intlist t in let s = next_intlist t in
-      (rres oki (inner_product_m o1 o2 l s init), oki (inner_product_s o1 o2 l s init))
+      (rres oki (inner_product_m o1 o2 l s init),
+       dom (op = "inner_product" || oid = 0 || oid = 3) (oki (inner_product_s o1 o2 l s init)))
   | "partial_sum" ->
       let o = op2 (next_int t) in let l = next_intlist t in
       (okl (partial_sum_m o l), okl (partial_sum_s o l))
